@@ -441,6 +441,15 @@ Definition serve_msg (tr : transport) (c : cfg) (q : msg) (strict : bool) (dn : 
 (* ---- header-level accept (datagram and stream listeners) ---- *)
 Inductive verdict := AcceptOK | AcceptIgnore | AcceptNotImp | AcceptFormErr.
 
+(* the section-count limits of server.acceptHeader.  Written out here (session 3): the tie is
+   Proofs.gen_acceptHeader — the function translated from the Go AST IS accept_header — so a
+   behaviour-preserving rewrite of acceptHeader keeps the tie and a changed limit breaks it
+   (they used to be regex constants over the statement text, which seeded C06-8's refactor broke) *)
+Definition accept_qd : N := 1.
+Definition accept_an_max : N := 1.
+Definition accept_ns_max : N := 1.
+Definition accept_ar_max : N := 2.
+
 Definition accept_header (h : T_Header) : verdict :=
   if go_Header_QR h then AcceptIgnore
   else if negb (go_Header_Opcode h =? opcode_query)%Z && negb (go_Header_Opcode h =? opcode_notify)%Z then AcceptNotImp
